@@ -128,6 +128,9 @@ pub fn run_case<V: VringT<GM> + Clone + Send + Sync + 'static>(case: &Value, tra
     let mut sentkinds: Vec<String> = Vec::new();
     let mut closed = false;
     let mut ntimeouts = 0;
+    // buffer handles resolved through the guest-memory interface right after each accepted table update and kept (what an
+    // in-flight request of a device does): (pool region, guard keeping the mapping alive, slice over the whole region)
+    let mut held_slices: Vec<HeldSlice> = Vec::new();
     for step in case["steps"].as_array().unwrap() {
         let op = step["op"].as_str().unwrap();
         // letters that act through the memory handle the backend was given, not through the connection
@@ -260,6 +263,16 @@ pub fn run_case<V: VringT<GM> + Clone + Send + Sync + 'static>(case: &Value, tra
                     _ => 38,
                 };
                 status = rig.peer.request(code, &body, &fds, false).status;
+                held_slices.clear();
+                if status == "ok" {
+                    if let Some(g) = rig.tb.mem.lock().unwrap().clone() {
+                        for (rid, r) in pool.iter().enumerate() {
+                            if let Some(h) = HeldSlice::take(&g, rid, r.gpa, r.size as usize) {
+                                held_slices.push(h);
+                            }
+                        }
+                    }
+                }
             }
             "set_vring_addr" => {
                 let rid = step["rid"].as_u64().unwrap_or(0) as usize;
@@ -372,8 +385,21 @@ pub fn run_case<V: VringT<GM> + Clone + Send + Sync + 'static>(case: &Value, tra
                 let gpa = pool[rid].gpa.wrapping_add(o);
                 let before = log_snapshot(&log_guard);
                 let mut write_panicked = false;
-                let wrote = match gm {
-                    Some(g) => {
+                let via_held = step["via_held"].as_bool().unwrap_or(false);
+                let held = if via_held { held_slices.iter().find(|h| h.rid == rid) } else { None };
+                let wrote = match (gm, held) {
+                    (_, Some(h)) => {
+                        // through the handle taken before (possibly before the log was installed)
+                        let data = vec![0x5au8; len.min(1 << 22)];
+                        match std::panic::catch_unwind(std::panic::AssertUnwindSafe(|| h.write(&data, o as usize))) {
+                            Ok(n) => n,
+                            Err(_) => {
+                                write_panicked = true;
+                                0
+                            }
+                        }
+                    }
+                    (Some(g), None) => {
                         let data = vec![0x5au8; len.min(1 << 22)];
                         // a write may be partial at the end of a region: use the Bytes::write semantics
                         use vm_memory::Bytes;
@@ -387,10 +413,10 @@ pub fn run_case<V: VringT<GM> + Clone + Send + Sync + 'static>(case: &Value, tra
                             }
                         }
                     }
-                    None => 0,
+                    (None, None) => 0,
                 };
                 let (newbits, cleared, guard_ok) = log_diff(&log_guard, &before);
-                out = json!({"wrote": wrote, "gpa": limbs(gpa), "newbits": newbits, "cleared": cleared, "guard_ok": guard_ok, "panicked": write_panicked});
+                out = json!({"via_held": held.is_some(), "wrote": wrote, "gpa": limbs(gpa), "newbits": newbits, "cleared": cleared, "guard_ok": guard_ok, "panicked": write_panicked});
                 status = "ok".into();
             }
             "brfd" => {
@@ -680,7 +706,32 @@ pub fn run_case<V: VringT<GM> + Clone + Send + Sync + 'static>(case: &Value, tra
         }
     }
     drop(listeners);
+    held_slices.clear();
     let _ = rig.finish();
     let held_end: Vec<i64> = tokens.iter().map(|(id, own, _)| count_ident(id) as i64 - *own as i64).collect();
     trace.emit(json!({"ev": "end", "nfds": std::fs::read_dir("/proc/self/fd").map(|d| d.count()).unwrap_or(0), "held": held_end}));
+}
+
+
+/// A slice over a whole region, resolved once and kept across later requests (the guard keeps the mapping alive).
+pub struct HeldSlice {
+    pub rid: usize,
+    _guard: vm_memory::atomic::GuestMemoryLoadGuard<vm_memory::GuestMemoryMmap<vhost_user_backend::bitmap::BitmapMmapRegion>>,
+    slice: vm_memory::VolatileSlice<'static, vm_memory::bitmap::BS<'static, vhost_user_backend::bitmap::BitmapMmapRegion>>,
+}
+impl HeldSlice {
+    pub fn take(g: &GM, rid: usize, gpa: u64, size: usize) -> Option<HeldSlice> {
+        use vm_memory::{GuestAddressSpace, GuestMemory};
+        let guard = g.memory();
+        let sl = guard.get_slice(vm_memory::GuestAddress(gpa), size).ok()?;
+        // SAFETY: the slice points into a mapping owned by the memory object `guard` keeps alive; both are stored together and
+        // the slice is never handed out beyond the life of this struct.
+        let sl: vm_memory::VolatileSlice<'static, vm_memory::bitmap::BS<'static, vhost_user_backend::bitmap::BitmapMmapRegion>> = unsafe { std::mem::transmute(sl) };
+        Some(HeldSlice { rid, _guard: guard, slice: sl })
+    }
+    /// `Bytes::write` semantics: as many bytes as fit
+    pub fn write(&self, data: &[u8], o: usize) -> usize {
+        use vm_memory::Bytes;
+        self.slice.write(data, o).unwrap_or(0)
+    }
 }
